@@ -77,6 +77,7 @@ type Run struct {
 	Samples      []string
 	Fails        int
 	unclassified int
+	scenario     []string
 	Known        map[string]int
 	Notes        map[string]any
 	Rule         string
@@ -108,6 +109,11 @@ func (r *Run) Op(op, implOut string, nontrivial bool) {
 	defer r.mu.Unlock()
 	fmt.Fprintln(r.ops, op)
 	fmt.Fprintln(r.impl, implOut)
+	if op == "reset" {
+		r.scenario = r.scenario[:0]
+	} else if len(r.scenario) < 400 {
+		r.scenario = append(r.scenario, op+" => "+implOut)
+	}
 	r.Evals++
 	if nontrivial {
 		r.seen[op] = struct{}{}
@@ -148,6 +154,11 @@ func (r *Run) Fail(class, witness string) {
 	}
 	if r.Fails <= 200 || (class == "" && r.unclassified <= 50) {
 		fmt.Fprintf(r.oracle, "FAIL %s %s\n", orDash(class), witness)
+		if class == "" && r.unclassified <= 3 && len(r.scenario) > 0 {
+			// the protocol lines of the scenario in progress (since the last reset): the replayable history
+			b, _ := json.Marshal(r.scenario)
+			fmt.Fprintf(r.oracle, "SCENARIO %s\n", b)
+		}
 	}
 }
 
